@@ -278,3 +278,22 @@ def dagger(m: sp.Matrix) -> sp.Matrix:
 def residual_text(x: Any) -> str:
     nf = normal_form(x)
     return str(nf)[:160]
+
+
+def local_param_env(fn_node: ast.AST, symbols: Dict[str, Any]) -> Dict[str, Any]:
+    """Environment for a simulation step, independent of what its locals are called: a local bound to
+    `<instruction>.params[KEY]` / `._params[KEY]` / `._get_all_params(...)[KEY]` denotes symbols[KEY]; a local bound to a connector's
+    (or state's) numpy namespace denotes numpy."""
+    env: Dict[str, Any] = {}
+    for n in ast.walk(fn_node):
+        if not (isinstance(n, ast.Assign) and len(n.targets) == 1 and isinstance(n.targets[0], ast.Name)):
+            continue
+        v = n.value
+        if isinstance(v, ast.Subscript) and isinstance(v.slice, ast.Constant) and isinstance(v.slice.value, str):
+            base = norm(v.value)
+            if base.endswith(".params") or base.endswith("._params") or "_get_all_params(" in base:
+                if v.slice.value in symbols:
+                    env[n.targets[0].id] = symbols[v.slice.value]
+        elif isinstance(v, ast.Attribute) and v.attr in ("np", "_np", "fallback_np", "forward_pass_np"):
+            env[n.targets[0].id] = "<np>"
+    return env
